@@ -694,8 +694,8 @@ func vfJwtSign(d *vfJwtDesc, sk *vfJwtKey, input string) ([]byte, string, bool) 
 			case "padded2":
 				return append(append([]byte{0, 0}, rb...), append([]byte{0, 0}, sb...)...), "padded", true
 			case "stripped":
-				if sk.Bits != 521 && vfTier() != "thorough" {
-					return nil, "", false // needs ~65000 signatures on the other curves
+				if sk.Bits != 521 && !(sk.Bits == 256 && vfTier() == "thorough") {
+					return nil, "", false // needs ~65000 signatures on the other curves (P-256: thorough only)
 				}
 				if rb[0] != 0 || sb[0] != 0 {
 					if tries > 400000 {
@@ -773,6 +773,11 @@ func vfJwtBuild(d *vfJwtDesc, sets []*vfJwtKeySet, nowSec int64, jti string) (*v
 	pPart, pOK, pFields, a2 := vfJwtPart(canonP, varP, d.PF, d.PT)
 	if !a1 || !a2 {
 		return nil, false
+	}
+	if d.Extra == "deep20000" && pFields {
+		// encoding/json refuses values nested deeper than 10000 levels: for this verifier the
+		// payload is not a JSON document it can read (reported as an observation, not a violation)
+		pOK, pFields = false, false
 	}
 	rec.H, rec.C = hOK, pOK
 	if !hFields {
@@ -975,6 +980,14 @@ func vfJwtObserve(cfg vfJwtConfig, ks *vfJwtKeySet, tokA, tokB string) *vfJwtObs
 	return o
 }
 
+func vfJwtNearBoundary(mode string) bool {
+	switch mode {
+	case "o:-123", "o:-117", "o:7", "o:13":
+		return true
+	}
+	return false
+}
+
 // vfJwtRunDesc mints (twice when a jti is present: the replay map is process-global)
 // and observes.  ok=false: the description does not apply.
 func vfJwtRunDesc(d *vfJwtDesc, sets []*vfJwtKeySet) (*vfJwtObs, bool) {
@@ -984,6 +997,13 @@ func vfJwtRunDesc(d *vfJwtDesc, sets []*vfJwtKeySet) (*vfJwtObs, bool) {
 		vfJwtSerial++
 		jtiA := fmt.Sprintf("j-%d-%d-a", start.UnixNano(), vfJwtSerial)
 		jtiB := fmt.Sprintf("j-%d-%d-b", start.UnixNano(), vfJwtSerial)
+		// the search for a signature with two leading zero bytes takes seconds on P-256:
+		// such a token cannot be verified within 1 s of minting, so it is not combined
+		// with claim times next to a tolerance boundary, and not re-minted
+		slow := d.SF == "stripped" && sets[d.KS].Keys[d.SK].Bits != 521
+		if slow && (vfJwtNearBoundary(d.Exp) || vfJwtNearBoundary(d.Iat) || vfJwtNearBoundary(d.Nbf)) {
+			return nil, false
+		}
 		a, ok := vfJwtBuild(d, sets, nowSec, jtiA)
 		if !ok {
 			return nil, false
@@ -999,7 +1019,7 @@ func vfJwtRunDesc(d *vfJwtDesc, sets []*vfJwtKeySet) (*vfJwtObs, bool) {
 		// claim times were chosen >= 3 s from every boundary relative to nowSec; the code
 		// reads the clock itself, so everything must have happened within 1 s of nowSec
 		// (>= 2 s from every boundary at the moment of verification)
-		if time.Since(start)+time.Duration(start.Nanosecond()) > 1000*time.Millisecond && attempt < 5 {
+		if time.Since(start)+time.Duration(start.Nanosecond()) > 1000*time.Millisecond && attempt < 5 && !slow {
 			continue
 		}
 		o.Rec = a.Rec
